@@ -2990,8 +2990,11 @@ func (te *TemplateEngine) renderImages(content string, images map[string]*Templa
 // processImagePlaceholders 处理文档中的图片占位符
 func (te *TemplateEngine) processImagePlaceholders(doc *Document, data *TemplateData) error {
 	// 遍历文档元素，查找并替换图片占位符
-	for i, element := range doc.Body.Elements {
-		switch elem := element.(type) {
+	// 按下标遍历当前的元素切片：一个段落可能被替换成多个元素（占位符前后的文字各成一段），
+	// 用 range 遍历循环开始时的切片会让后面的下标全部错位（后面的占位符被替换到错误的位置、
+	// 文字丢失、紧随其后的表格被跳过）
+	for i := 0; i < len(doc.Body.Elements); i++ {
+		switch elem := doc.Body.Elements[i].(type) {
 		case *Paragraph:
 			// 检查段落是否包含图片占位符
 			newElements, err := te.processImagePlaceholdersInParagraph(elem, data, doc)
@@ -3001,8 +3004,10 @@ func (te *TemplateEngine) processImagePlaceholders(doc *Document, data *Template
 
 			// 如果有图片替换，更新文档元素
 			if len(newElements) > 1 || (len(newElements) == 1 && newElements[0] != elem) {
-				// 移除原段落，插入新元素（可能包含图片段落）
-				doc.Body.Elements = append(doc.Body.Elements[:i], append(newElements, doc.Body.Elements[i+1:]...)...)
+				// 移除原段落，插入新元素（可能包含图片段落），然后从新元素之后继续
+				rest := append([]interface{}{}, doc.Body.Elements[i+1:]...)
+				doc.Body.Elements = append(append(doc.Body.Elements[:i], newElements...), rest...)
+				i += len(newElements) - 1
 			}
 		case *Table:
 			// 处理表格中的图片占位符 (Fix for Issue #91)
@@ -3019,8 +3024,8 @@ func (te *TemplateEngine) processImagePlaceholdersInTable(table *Table, data *Te
 	for rowIdx := range table.Rows {
 		for cellIdx := range table.Rows[rowIdx].Cells {
 			cell := &table.Rows[rowIdx].Cells[cellIdx]
-			// 处理单元格中的每个段落
-			for paraIdx := range cell.Paragraphs {
+			// 处理单元格中的每个段落（按下标遍历当前切片：段落可能被替换成多个）
+			for paraIdx := 0; paraIdx < len(cell.Paragraphs); paraIdx++ {
 				para := &cell.Paragraphs[paraIdx]
 				newElements, err := te.processImagePlaceholdersInParagraph(para, data, doc)
 				if err != nil {
@@ -3045,6 +3050,7 @@ func (te *TemplateEngine) processImagePlaceholdersInTable(table *Table, data *Te
 						}
 						newParagraphs = append(newParagraphs, cell.Paragraphs[paraIdx+1:]...)
 						cell.Paragraphs = newParagraphs
+						paraIdx += len(newElements) - 1
 					}
 				}
 			}
